@@ -513,10 +513,11 @@ func (r *renderer) expr(e Expr, minPrec int) string {
 		return "{" + r.topExprInBraces(v.E) + "}"
 	case Bin:
 		p := prec(v.Op)
-		// left operand: same precedence may stay unbraced (left assoc) except for comparisons
+		// left operand: same precedence may stay unbraced (equal-precedence operators group
+		// left to right - comparisons included: a < b == c is {a < b} == c)
 		lp, rp := p, p+1
 		if p == 3 {
-			lp, rp = 5, 5 // comparison operands are arithmetic-level expressions
+			rp = 5 // the right operand of a comparison is an arithmetic-level expression
 		}
 		s := r.expr(v.L, lp) + r.opTok(v.Op) + r.expr(v.R, rp)
 		if p < minPrec {
